@@ -169,7 +169,7 @@ def counterexamples(ctx, fam, cfg_base, label, depth, timeout=600, **consts):
 
 
 def simulate(ctx, fam, cfg_base, label, depth, num, timeout=600, **consts):
-    cfg = cfg_with(cfg_base, **dict({fam.fixed_const: "FALSE", "Bounded": "TRUE", "MaxDepth": depth}, **consts))
+    cfg = cfg_with(cfg_base, **dict({fam.fixed_const: "TRUE", "Bounded": "TRUE", "MaxDepth": depth}, **consts))
     cfg = set_invariants(cfg, ["TypeOK", "Export"]).replace("VIEW View\n", "")
     r = vlib.tlc(ctx, fam.mc, cfg="sim.cfg", files={"sim.cfg": cfg}, timeout=timeout, workers=4,
                  simulate="num=%d" % max(1, num // 4), depth=depth + 1, seed=ctx.seed, heap="4g")
@@ -228,10 +228,10 @@ def check_trace(ctx, fam, binary, trace_path, label, stats):
     res["tlc_states"] = r.distinct
     stats["tlc_trace_states"] = stats.get("tlc_trace_states", 0) + r.distinct
     if not ok:
-        # mechanism-level mismatch: is the code the repaired mechanism?
-        ok2, rej2, fails2, r2 = validate(ctx, fam.trace, trace_cfg(fam.trace, "M", **{fam.fixed_const: "TRUE"}), trace_path)
+        # mechanism-level mismatch: is the code the mechanism with the (fixed) deviation?
+        ok2, rej2, fails2, r2 = validate(ctx, fam.trace, trace_cfg(fam.trace, "M", **{fam.fixed_const: "FALSE"}), trace_path)
         if ok2:
-            res["matches_repaired_mechanism"] = True
+            res["matches_deviation_mechanism"] = True
             fails = fails2
         else:
             res["mechanism_conformant"] = False
@@ -435,13 +435,13 @@ def run_c13(ctx):
     if not r.ok:
         raise vlib.InfraError("ArpHuntMC probe config: model-level failure violated=%s\n%s" % (r.violated, r.out[-2500:]))
     states, trans = states + r.distinct, trans + r.generated
-    # 2. the mechanism as the code has it (membership by IP): everything but the undo holds ...
+    # 2. the mechanism with the deviation fixed in 0f0beaf (membership by IP): everything but the undo holds ...
     invs_no_undo = [i for i in all_invs if i not in ("C13_UndoWithinOneCycle", "LoopServesOwnMac")]
     r = model_check(ctx, fam, base, "full_byIP_loops%d" % (2 if quick else 3), False, invs_no_undo, 1500, MaxLoops=2 if quick else 3)
     if not r.ok:
         raise vlib.InfraError("ArpHuntMC (ByIP): model-level failure violated=%s error=%s\n%s" % (r.violated, r.error, r.out[-2500:]))
     states, trans = states + r.distinct, trans + r.generated
-    # ... and the undo does not: TLC's counterexamples are replayed on the real code first
+    # ... and the undo does not: TLC's counterexamples are the regression tests replayed on the real code first
     r, bad = counterexamples(ctx, fam, base, "counterexamples_byIP", 7 if quick else 9, MaxLoops=2, RecvOps="{}")
     states, trans = states + r.distinct, trans + r.generated
     names = sorted({b["bad"] for b in bad})
@@ -541,11 +541,11 @@ def rt_failures(ctx, fam, trace_path, label, stats=None, res=None):
     if stats is not None:
         stats["tlc_trace_states"] = stats.get("tlc_trace_states", 0) + r.distinct
     if not ok:
-        ok2, rej2, fails2, _ = validate(ctx, fam.trace, trace_cfg(fam.trace, "M", **{fam.fixed_const: "TRUE"}), clean)
+        ok2, rej2, fails2, _ = validate(ctx, fam.trace, trace_cfg(fam.trace, "M", **{fam.fixed_const: "FALSE"}), clean)
         if ok2:
             fails = fails2
             if res is not None:
-                res["matches_repaired_mechanism"] = True
+                res["matches_deviation_mechanism"] = True
         else:
             if res is not None:
                 res.update({"mechanism_conformant": False, "drift_line": rej, "drift": True})
@@ -658,7 +658,7 @@ def ra_judge(vec, res):
         if vec["mayDrop"] and not first_kept:
             return []
         return [("dropped", "well-formed advertisement not learned")]
-    d = ra_diff(res["rec"], vec["ref"], res["ethsrc"], not first_kept)
+    d = ra_diff(res["rec"], vec["ref"], res.get("ethsrc2", res["ethsrc"]), not first_kept)
     if not d:
         return []
     if vec["mayDrop"] and first_kept and not ra_diff(res["rec"], vec["firstRef"]["ref"], res["ethsrc"], True):
@@ -712,33 +712,92 @@ def ra_run(ctx, binary, vecs, tag, shared=False):
     return res
 
 
-def ra_check(ctx, binary, vecs, tag, stats):
-    res = ra_run(ctx, binary, vecs, tag)
+def ra_failures(vecs, res, suffix=""):
     per_key = {}
     for v, r in zip(vecs, res):
         for field, detail in ra_judge(v, r):
-            per_key.setdefault(ra_key(v, field), []).append((v, r, field, detail))
+            per_key.setdefault(ra_key(v, field) + suffix, []).append((v, r, field, detail))
+    return per_key
+
+
+def ra_check(ctx, binary, vecs, tag, stats):
+    """Fresh mode (every packet in its own buffer) and shared mode (one receive buffer, overwritten after each
+    packet -- the way a packet loop uses the library): in both the record must be the reference record."""
+    res = ra_run(ctx, binary, vecs, tag)
+    shared = ra_run(ctx, binary, vecs, tag, shared=True)
+    per_key = ra_failures(vecs, res)
+    for key, items in ra_failures(vecs, shared, ":shared-buffer").items():
+        if key[:-len(":shared-buffer")] not in per_key:
+            per_key[key] = items
     for key, items in sorted(per_key.items()):
+        sh = key.endswith(":shared-buffer")
+        base = key[:-len(":shared-buffer")] if sh else key
         for v, r, field, detail in items[:2]:
-            again = ra_run(ctx, binary, [v], "confirm")[0]
-            if not any(ra_key(v, f) == key for f, _ in ra_judge(v, again)):
+            again = ra_run(ctx, binary, [v], "confirm", shared=sh)[0]
+            if not any(ra_key(v, f) == base for f, _ in ra_judge(v, again)):
                 raise vlib.InfraError("RA vector failure %s did not reproduce" % key)
             ids = [o["id"] for o in v["opts"]]
-            ctx.report(key, "router record field %s after RA %s %s: %s (handler has %s, reference %s)" %
-                       (field, v["h"]["id"], ids, detail, json.dumps((r.get("rec") or {}).get(field.replace("first.", ""), None)),
-                        json.dumps(v["ref"].get(field.replace("first.", ""), None), default=list)),
-                       {"family": "ra", "vector": v, "field": field})
+            ctx.report(key, "router record field %s after RA %s %s%s: %s (handler has %s, reference %s)" %
+                       (field, v["h"]["id"], ids, " with a reused receive buffer" if sh else "", detail,
+                        json.dumps((r.get("rec") or {}).get(field.replace("first.", ""), None)),
+                        json.dumps((v["firstRef"]["ref"] if field.startswith("first.") else v["ref"]).get(field.replace("first.", ""), None), default=list)),
+                       {"family": "ra", "vector": v, "field": field, "shared": sh})
         stats.setdefault("failures_by_key", {})[key] = stats.get("failures_by_key", {}).get(key, 0) + len(items)
-    # C10 rider: the transcript must not depend on what happens to the receive buffer afterwards
-    shared = ra_run(ctx, binary, vecs, tag, shared=True)
     diff = sum(1 for a, b in zip(res, shared) if a != b)
     return {"vectors": len(vecs), "failing_vectors": sum(len(x) for x in per_key.values()), "shared_buffer_differences": diff}
 
 
+def c10_part(ctx):
+    """For checks/c10.py: the RA-learning histories in fresh and in shared-buffer mode. Every field of the
+    FindRouter / LANRouters transcript (Router.Addr.MAC, flags, lifetimes, prefixes, MTU, RDNSS servers, DNSSL
+    domains, SLLA) that differs between the two modes is reported through ctx.report with key C10:ndp:<field>.
+    Returns (evaluations, distinct_nontrivial, differences)."""
+    binary = build(ctx)
+    _, vecs = ra_vectors(ctx, "single", 2 if ctx.quick else 3, 1)
+    _, vecs2 = ra_vectors(ctx, "update", 1, 1 if ctx.quick else 2)
+    ndiff = 0
+    for tag, vs in (("c10-single", vecs), ("c10-update", vecs2)):
+        fresh = ra_run(ctx, binary, vs, tag)
+        shared = ra_run(ctx, binary, vs, tag, shared=True)
+        seen = set()
+        for v, a, b in zip(vs, fresh, shared):
+            if a == b:
+                continue
+            ndiff += 1
+            fields = sorted(k for k in set(a) | set(b) if a.get(k) != b.get(k))
+            sub = []
+            for k in fields:
+                if isinstance(a.get(k), dict) and isinstance(b.get(k), dict):
+                    sub += ["%s" % f for f in sorted(set(a[k]) | set(b[k])) if a[k].get(f) != b[k].get(f)]
+                else:
+                    sub.append(k)
+            for f in sub:
+                key = "C10:ndp:%s" % f
+                if key in seen:
+                    continue
+                seen.add(key)
+                a2 = ra_run(ctx, binary, [v], "c10-confirm")[0]
+                b2 = ra_run(ctx, binary, [v], "c10-confirm", shared=True)[0]
+                if a2 == b2:
+                    raise vlib.InfraError("shared-buffer difference %s did not reproduce" % key)
+                ctx.report(key, "router record after RA %s %s depends on the receive buffer being left alone: field %s" %
+                           (v["h"]["id"], [o["id"] for o in v["opts"]], f), {"family": "ra", "vector": v, "field": f, "shared": True})
+    return len(vecs) + len(vecs2), len(vecs) + len(vecs2), ndiff
+
+
 def replay_ra(ctx, binary, obj, path):
     v = obj["replay"]["vector"]
-    r = ra_run(ctx, binary, [v], "replay")[0]
-    if any(ra_key(v, f) == obj["key"] for f, _ in ra_judge(v, r)):
+    sh = bool(obj["replay"].get("shared"))
+    r = ra_run(ctx, binary, [v], "replay", shared=sh)[0]
+    if obj["key"].startswith("C10:"):
+        fresh = ra_run(ctx, binary, [v], "replay")[0]
+        if fresh != r:
+            print("VIOLATION property=%s replay=%s" % (ctx.pid, path))
+            return 1
+        print("not reproduced")
+        return 0
+    want = obj["key"][:-len(":shared-buffer")] if obj["key"].endswith(":shared-buffer") else obj["key"]
+    if any(ra_key(v, f) == want for f, _ in ra_judge(v, r)):
         print("VIOLATION property=%s replay=%s" % (ctx.pid, path))
         return 1
     print("not reproduced")
@@ -818,7 +877,7 @@ def run_c14(ctx):
     if not r.ok:
         raise vlib.InfraError("Ndp6HuntMC (SafeWake): model-level failure violated=%s error=%s\n%s" % (r.violated, r.error, r.out[-2500:]))
     states, trans = states + r.distinct, trans + r.generated
-    # 2. the mechanism as the code has it: everything but NoPanic holds on the part of the graph before a panic ...
+    # 2. the mechanism with the deviation fixed in 1cb0389 (RA wake-up ignores `closed`): everything but NoPanic holds ...
     r = model_check(ctx, fam, base, "full_asCoded_loops2", False, [i for i in all_invs if i != "NoPanic"], 1500, MaxLoops=2)
     if not r.ok:
         raise vlib.InfraError("Ndp6HuntMC (as coded): model-level failure violated=%s error=%s\n%s" % (r.violated, r.error, r.out[-2500:]))
